@@ -15,6 +15,7 @@ CONSTANTS
   Deltas = {}
   Amounts = {}
   Fns = {}
+  FnsNamed = {}
   Styles = {}
 INVARIANTS LawIdealInRange LawRefBound LawPartnersSame Emit
 CHECK_DEADLOCK FALSE
